@@ -72,17 +72,55 @@ def match_known(known, rep):
 
 
 def _three_digit_ring_number(rep):
-    """The decoded SMILES of the failing string contains a ring closure number of three digits.  Since fix
-    0cd4ce7 that happens only when 100 or more rings are open at the same time (closed rings' numbers are
-    reused), and it is the very reason the output cannot be read."""
-    import re
+    """The decoded SMILES of the failing string contains a ring closure number of three digits *written
+    while the numbers 1..99 were all taken by rings still open*.  Since fix 0cd4ce7 (closed rings' numbers
+    are reused) that is the only situation in which the current tree writes one, and it is the very reason
+    the output cannot be read.  A three-digit number written while fewer than 99 rings are open (a writer
+    that numbers rings wrongly) is not this finding and is reported."""
     d = rep.get("violation", {}).get("detail", {})
     out = d.get("smiles")
     if out is None and isinstance(d.get("got"), (list, tuple)) and len(d["got"]) > 1:
         out = d["got"][1]
-    if not isinstance(out, str) or not re.search(r"%\d\d\d", out):
+    if not isinstance(out, str) or not _three_digit_labels_only_when_full(out):
         return False
     return any(a and a[0] == "unreadable" for a in d.get("atoms", [["unreadable"]]))
+
+
+def _three_digit_labels_only_when_full(smiles):
+    """Scan the ring labels of a SMILES string the way its writer meant them: '%' starts a three-digit
+    label exactly when 99 rings are open at that point, else a two-digit one.  True iff at least one
+    three-digit label (>= 100) was read that way."""
+    open_, i, n, seen = set(), 0, len(smiles), False
+    while i < n:
+        c = smiles[i]
+        if c == "[":
+            j = smiles.find("]", i)
+            if j < 0:
+                return False
+            i = j + 1
+            continue
+        if c == "%":
+            width = 3 if (len(open_) >= 99 and smiles[i + 1:i + 4].isdigit()) else 2
+            lab = smiles[i + 1:i + 1 + width]
+            if len(lab) != width or not lab.isdigit():
+                return False
+            if width == 3:
+                if int(lab) < 100:
+                    return False
+                seen = True
+            i += 1 + width
+        elif c.isdigit():
+            lab = c
+            i += 1
+        else:
+            i += 1
+            continue
+        lab = int(lab)
+        if lab in open_:
+            open_.discard(lab)
+        else:
+            open_.add(lab)
+    return seen
 
 
 def peel_ids(known_entry, rep):
